@@ -287,6 +287,22 @@ func (e *c09Env) apply(op c09Op) *c09Viol {
 			return &c09Viol{"load-after-save-failed", err.Error()}
 		}
 		e.repo = nr
+	case "load-again":
+		// Load on the repository object that is in use (Node.load runs on the node's one
+		// repository for Run, AddPeer and Scan alike); saved first, so nothing may change
+		if err := e.repo.Save(c09ctx); err != nil {
+			return &c09Viol{"save-failed", err.Error()}
+		}
+		fallthrough
+	case "load-again-nothing-stored":
+		// the same before anything was added or saved: the store is empty, the list is [genesis]
+		var err error
+		if p := safely(func() { err = e.repo.Load(c09ctx) }); p != nil {
+			return &c09Viol{"panic/Load", fmt.Sprint(p)}
+		}
+		if err != nil {
+			return &c09Viol{"load-again-failed", err.Error()}
+		}
 	case "revert":
 		before, v := e.answers()
 		if v != nil {
@@ -342,7 +358,7 @@ func (e *c09Env) apply(op c09Op) *c09Viol {
 
 func TestVerif_C09(t *testing.T) {
 	rep := verifkit.NewReport("C09")
-	rep.Rule = "cases = (storage delete-missing behaviour, op list over {add k, revert t, save, save+reload}); heights and revert targets concentrated at 0, 1000k-1, 1000k, 1000k+1, tip; after every op all queries (LastHeight, LastHash, Hash/Header/Time at 23 heights incl. -2,-1, beyond tip; Height/Contains for live and reverted hashes) are compared with a Go slice. Non-trivial = contains a revert; distinct by sequence of (op, file-boundary class, saved-state class)"
+	rep.Rule = "cases = (storage delete-missing behaviour, op list over {add k, revert t, save, save+reload into a new repository, save+Load on the repository in use, Load on the repository in use before anything is stored}); heights and revert targets concentrated at 0, 1000k-1, 1000k, 1000k+1, tip; after every op all queries (LastHeight, LastHash, Hash/Header/Time at 23 heights incl. -2,-1, beyond tip; Height/Contains for live and reverted hashes) are compared with a Go slice. Non-trivial = contains a revert; distinct by sequence of (op, file-boundary class, saved-state class)"
 	rep.Assumptions = []string{"verifkit.Store (copy-on-read/write in-memory storage) stands for the storage back end; both delete-missing behaviours are run", "headers need not carry proof of work"}
 	defer rep.Write()
 
@@ -389,8 +405,16 @@ func TestVerif_C09(t *testing.T) {
 			return true
 		}
 		ok := true
-		if base > 0 {
-			ok = step(ops[0])
+		if r.Intn(4) == 0 {
+			// a node whose AddPeer / Scan is used before Run loads its repository several times
+			for k := 1 + r.Intn(3); ok && k > 0; k-- {
+				op := c09Op{Op: "load-again-nothing-stored"}
+				ops = append([]c09Op{op}, ops...)
+				ok = step(op)
+			}
+		}
+		if base > 0 && ok {
+			ok = step(ops[len(ops)-1])
 		}
 		for i := 0; ok && i < nops; i++ {
 			tip := len(e.model) - 1
@@ -418,8 +442,10 @@ func TestVerif_C09(t *testing.T) {
 					}
 				}
 				op = c09Op{Op: "revert", N: ok2[r.Intn(len(ok2))]}
-			case k < 85:
+			case k < 82:
 				op = c09Op{Op: "save"}
+			case k < 90:
+				op = c09Op{Op: "load-again"}
 			default:
 				op = c09Op{Op: "reload"}
 			}
